@@ -33,6 +33,7 @@ func runC19(r *an.Run) {
 	r.Rule("R2-token-agreement")
 	c19NameIndex(r)
 	patchBytesUnaltered(r, "R5-positions-are-offsets-into-the-users-file")
+	positionsReadBeforeStrip(r, "R3-line-map")
 }
 
 var positionedHelpers = map[string]string{
